@@ -88,10 +88,15 @@ def gather_tables(wd):
     ovr_lines = []
     mods = set(t["modifiers"])
     A, B = 30, 48
+    fromset = {c for c, _ in t["from"]}
     for e in names:
         n, c = e["n"], e["c"]
         qn = quote(n)
         if qn is None:
+            continue
+        if c not in fromset:
+            # a name whose code from_u16 does not know: reported by KeyTables.T_NamesInDomain; the harness cannot
+            # convert the code, so it is not observed in positions
             continue
         jobs.append({"tag": ["src", n, c], "cfg": "(defsrc %s)\n(deflayer l0 %s)\n" % (qn, qn), "probe": [c]})
         jobs.append({"tag": ["lmap", n, c], "cfg": "(defsrc)\n(deflayermap (l0) %s %s)\n" % (qn, "b" if c != B else "a"),
@@ -134,8 +139,11 @@ def gather_tables(wd):
             f.write(json.dumps(ln) + "\n")
     outp = os.path.join(wd, "nameovr.out.ndjson")
     p = sh([HARNESS, "ovr-eval", inp, outp], check=False, timeout=600)
+    ovr_failed = ""
     if p.returncode != 0:
-        raise ToolError("ovr-eval failed: " + (p.stdout or ""))
+        # data, not a tool error: the defoverrides position stays unobserved, the table check goes on
+        ovr_failed = (p.stdout or "")[-300:]
+        open(outp, "w").close()
     for line in open(outp):
         d = json.loads(line)
         n, c, outc = d["tag"]
@@ -143,7 +151,8 @@ def gather_tables(wd):
             nfail += 1
             continue
         pos[n]["ovr"] = c if d["real"] == [[outc]] else -2
-    return {"kc": kc, "osc": osc, "t": t, "pos": list(pos.values()), "pu_all": sorted(pu_all), "parse_failures": nfail}
+    return {"kc": kc, "osc": osc, "t": t, "pos": list(pos.values()), "pu_all": sorted(pu_all), "parse_failures": nfail,
+            "ovr_failed": ovr_failed}
 
 
 # ------------------------------------------------------------------ part T, names under deflocalkeys
@@ -452,6 +461,9 @@ def gather_lk_rows(wd, g, tier, rng, fams=None):
         for p in r.get("syntax", {}):
             r["obs"][p] = NA
             nsyntax += 1
+        for p, v in r["obs"].items():
+            if not isinstance(v, int) or isinstance(v, bool):
+                r["obs"][p] = MISMATCH      # e.g. an OsCode the dump could not turn back into a number
     return rows, {"blocks": len(fams), "configs_parsed": len(jobs), "rejected_configs": nrej[0], "positions_not_applicable_by_syntax": nsyntax,
                   "by_family": {f: sum(1 for r in rows if r["fam"] == f) for f in sorted({r["fam"] for r in rows})}}
 
@@ -521,8 +533,11 @@ def identity_jobs(tier, rng, g):
     dom = [c for c, _ in t["from"] if c < keys_in_row]          # codes that have a column in the layout
     # one plain name per named code
     by_code = {}
+    fromset = {c for c, _ in t["from"]}
     for e in t["names"]:
         qn = quote(e["n"])
+        if e["c"] not in fromset:
+            continue                # reported by the table part (T_NamesInDomain); the stepper cannot inject the code
         if qn and (e["c"] not in by_code or (len(qn) < len(by_code[e["c"]]) and qn.isascii())):
             by_code[e["c"]] = qn
     named = sorted(by_code)
@@ -854,6 +869,8 @@ def run(tier, seed):
                                        positions_observed=sum(1 for r_ in lkrows for v in r_["obs"].values() if v >= 0))}
     log("[c11] tables: %d states, %d requirement failures, %d names, unreachable %s" %
         (r["distinct"], len(terrs), len(t["names"]), note.get("unreachable")))
+    if g.get("ovr_failed"):
+        res.notes.append("defoverrides position of the base name table not observed (ovr-eval: %s)" % g["ovr_failed"])
     if note.get("unreachable"):
         res.notes.append("soft probe: OsCode variants %s have no from_u16 entry (from_u16 is not onto the enum); "
                          "they cannot enter or leave kanata, nothing observable depends on them" % note["unreachable"])
@@ -862,62 +879,82 @@ def run(tier, seed):
         ex = [r_ for r_ in lkrows if r_["fam"] == fam]
         if ex:
             res.samples.append({"deflocalkeys_row": {k: ex[0][k] for k in ("n", "fam", "lk", "exp", "obs")}})
-    # ---- part I
-    jobs, params = identity_jobs(tier, rng, g)
-    jobs = shard_local_index(jobs)
-    errs = par_validate(res, "P_C11", jobs, wd, "c11_id", 6 if tier == "quick" else 10)
-    for e in sorted(errs, key=lambda e: e["job"])[:20]:
-        j, s = script_of(jobs, e["job"], 0)
-        flow.classify(res, pid, e["err"], e["err"] + " script=" + json.dumps(s) + " cfg=" + j["cfg"][:200],
-                      {"property": pid, "cfg": j["cfg"], "params": j["params"], "script": s, "err": e["err"],
-                       "monitor": "P_C11"}, "id_%d" % len(res.violations))
-    res.samples.append({"identity_script": jobs[30]["scripts"][0], "cfg": jobs[30]["cfg"][:200]})
-    log("[c11] identity: %d scripts, %d rejected" % (len(jobs), len(errs)))
-    # ---- part P
-    code_of = {e["n"]: e["c"] for e in t["names"]}
-    fam = path_family(tier, random.Random(seed + 23))
-    wjobs = path_instances(res, tier, fam, wd, code_of)
-    pjobs = shard_local_index(wjobs + path_jobs(tier, random.Random(seed + 29), fam, code_of))
-    perrs = par_validate(res, "P_C11", pjobs, wd, "c11_paths", 6 if tier == "quick" else 10)
-    rejected_cfgs = sorted({e["job"].split("#")[0] for e in perrs if e["err"].startswith("error from the code under test")})
-    if len(rejected_cfgs) > len(fam) // 3:
-        raise ToolError("output-path family: configurations not accepted: %s" % rejected_cfgs)
-    if rejected_cfgs:
-        res.notes.append("output-path configurations not accepted by this tree (skipped): %s" % rejected_cfgs)
-    perrs = [e for e in perrs if not e["err"].startswith("error from the code under test")]
-    seen_cfg = {}
-    for e in sorted(perrs, key=lambda e: len(script_of(pjobs, e["job"], 0)[1])):
-        j, sc = script_of(pjobs, e["job"], 0)
-        name = e["job"].split("#")[0][2:]
-        seen_cfg[name] = seen_cfg.get(name, 0) + 1
-        if seen_cfg[name] > 2:
-            continue
-        tag = ZIPPY_NOTE if name == "zippy" else ""
-        flow.classify(res, pid, e["err"], e["err"] + tag + " path=" + name + " script=" + json.dumps(sc) + " cfg=" + j["cfg"],
-                      {"property": pid, "cfg": j["cfg"], "params": j["params"], "script": sc, "err": e["err"], "files": j.get("files", {}),
-                       "monitor": "P_C11"}, "path_%d" % len(res.violations))
-    res.samples.append({"output_path": fam[1]["name"], "cfg": fam[1]["cfg"], "script": pjobs[-1]["scripts"][0][:20]})
-    res.extra["output_paths"] = {"configurations": [f["name"] for f in fam], "explored_with_L1": [f["name"] for f in fam if f["mc"]],
-                                 "scripts": len(pjobs), "rejected": len(perrs),
-                                 "rejected_by_path": seen_cfg}
-    log("[c11] output paths: %d configurations, %d scripts, %d rejected %s" % (len(fam), len(pjobs), len(perrs), seen_cfg or ""))
-    # ---- part S
-    cases = intercept_cases(tier, rng, g)
-    rs, serrs, lines, failed = check_intercept(wd, cases, g)
-    res.states += rs["distinct"] or 0
-    res.transitions += rs["generated"] or 0
-    res.traces_validated += len(lines)
-    for e in serrs[:10]:
-        desc = "C11 S: intercept set differs from the statement: missing %s extra %s" % (e["missing"][:10], e["extra"][:10])
-        flow.classify(res, pid, desc, desc + " cfg=" + e["case"]["cfg"][:300],
-                      {"property": pid, "kind": "c11intercept", "cfg": e["case"]["cfg"], "q": e["case"]["q"], "err": desc},
-                      "intercept_%d" % len(res.violations))
-    if lines:
-        res.samples.append({"intercept_cfg": lines[0]["cfg"][:300], "q": {k: (v[:8] if isinstance(v, list) else v)
-                                                                          for k, v in lines[0]["q"].items()},
-                            "mapped_keys_size": len(lines[0]["mapped"])})
-    log("[c11] intercept: %d configurations compared, %d differ, %d rejected by the parser" %
-        (len(lines), len(serrs), len(failed)))
+    box = {"lines": [], "failed": []}
+
+    def guarded(label, fn):
+        """a later part that cannot run on this tree does not hide what the table part already reported"""
+        try:
+            fn()
+        except ToolError as e:
+            if not res.violations:
+                raise
+            res.notes.append("part %s could not be run on this tree (%s); the violations above stand" % (label, str(e)[:300]))
+            log("[c11] part %s skipped: %s" % (label, str(e)[:200]))
+
+    def part_I():
+        jobs, params = identity_jobs(tier, rng, g)
+        jobs = shard_local_index(jobs)
+        errs = par_validate(res, "P_C11", jobs, wd, "c11_id", 6 if tier == "quick" else 10)
+        for e in sorted(errs, key=lambda e: e["job"])[:20]:
+            j, s = script_of(jobs, e["job"], 0)
+            flow.classify(res, pid, e["err"], e["err"] + " script=" + json.dumps(s) + " cfg=" + j["cfg"][:200],
+                          {"property": pid, "cfg": j["cfg"], "params": j["params"], "script": s, "err": e["err"],
+                           "monitor": "P_C11"}, "id_%d" % len(res.violations))
+        res.samples.append({"identity_script": jobs[30]["scripts"][0], "cfg": jobs[30]["cfg"][:200]})
+        log("[c11] identity: %d scripts, %d rejected" % (len(jobs), len(errs)))
+
+    def part_P():
+        code_of = {e["n"]: e["c"] for e in t["names"]}
+        fam = path_family(tier, random.Random(seed + 23))
+        wjobs = path_instances(res, tier, fam, wd, code_of)
+        pjobs = shard_local_index(wjobs + path_jobs(tier, random.Random(seed + 29), fam, code_of))
+        perrs = par_validate(res, "P_C11", pjobs, wd, "c11_paths", 6 if tier == "quick" else 10)
+        rejected_cfgs = sorted({e["job"].split("#")[0] for e in perrs if e["err"].startswith("error from the code under test")})
+        if len(rejected_cfgs) > len(fam) // 3:
+            raise ToolError("output-path family: configurations not accepted: %s" % rejected_cfgs)
+        if rejected_cfgs:
+            res.notes.append("output-path configurations not accepted by this tree (skipped): %s" % rejected_cfgs)
+        perrs = [e for e in perrs if not e["err"].startswith("error from the code under test")]
+        seen_cfg = {}
+        for e in sorted(perrs, key=lambda e: len(script_of(pjobs, e["job"], 0)[1])):
+            j, sc = script_of(pjobs, e["job"], 0)
+            name = e["job"].split("#")[0][2:]
+            seen_cfg[name] = seen_cfg.get(name, 0) + 1
+            if seen_cfg[name] > 2:
+                continue
+            tag = ZIPPY_NOTE if name == "zippy" else ""
+            flow.classify(res, pid, e["err"], e["err"] + tag + " path=" + name + " script=" + json.dumps(sc) + " cfg=" + j["cfg"],
+                          {"property": pid, "cfg": j["cfg"], "params": j["params"], "script": sc, "err": e["err"], "files": j.get("files", {}),
+                           "monitor": "P_C11"}, "path_%d" % len(res.violations))
+        res.samples.append({"output_path": fam[1]["name"], "cfg": fam[1]["cfg"], "script": pjobs[-1]["scripts"][0][:20]})
+        res.extra["output_paths"] = {"configurations": [f["name"] for f in fam], "explored_with_L1": [f["name"] for f in fam if f["mc"]],
+                                     "scripts": len(pjobs), "rejected": len(perrs),
+                                     "rejected_by_path": seen_cfg}
+        log("[c11] output paths: %d configurations, %d scripts, %d rejected %s" % (len(fam), len(pjobs), len(perrs), seen_cfg or ""))
+
+    def part_S():
+        cases = intercept_cases(tier, rng, g)
+        rs, serrs, lines, failed = check_intercept(wd, cases, g)
+        box["lines"], box["failed"] = lines, failed
+        res.states += rs["distinct"] or 0
+        res.transitions += rs["generated"] or 0
+        res.traces_validated += len(lines)
+        for e in serrs[:10]:
+            desc = "C11 S: intercept set differs from the statement: missing %s extra %s" % (e["missing"][:10], e["extra"][:10])
+            flow.classify(res, pid, desc, desc + " cfg=" + e["case"]["cfg"][:300],
+                          {"property": pid, "kind": "c11intercept", "cfg": e["case"]["cfg"], "q": e["case"]["q"], "err": desc},
+                          "intercept_%d" % len(res.violations))
+        if lines:
+            res.samples.append({"intercept_cfg": lines[0]["cfg"][:300], "q": {k: (v[:8] if isinstance(v, list) else v)
+                                                                              for k, v in lines[0]["q"].items()},
+                                "mapped_keys_size": len(lines[0]["mapped"])})
+        log("[c11] intercept: %d configurations compared, %d differ, %d rejected by the parser" %
+            (len(lines), len(serrs), len(failed)))
+
+    guarded("I", part_I)
+    guarded("P", part_P)
+    guarded("S", part_S)
+    lines, failed = box["lines"], box["failed"]
     return flow.finish(
         res, "model_checking",
         "TLC checks spec/KeyTables.tla over constants generated from the working tree: one state per u16 value "
@@ -942,6 +979,12 @@ def run(tier, seed):
                      "names that are action keywords in a layer (mlft, mwu, ...) are not key names in action positions",
                      "(arbitrary-code n) writes the number the user gave (event kind `code`); it is not a key of kanata's code "
                      "space and I2 does not apply to it",
+                     "NOT COVERED: the intercept set is compared through Cfg.mapped_keys of the parser; the static MAPPED_KEYS "
+                     "that the OS event loop consults (src/kanata/mod.rs, private; written by Kanata::new / new_from_str / "
+                     "do_live_reload) is not readable from the harness crate and its only reader (event_loop) needs real input "
+                     "devices, so 'the intercepted set after a successful / abandoned live reload is that of the configuration "
+                     "in force' is not checked; it needs an add-only #[cfg(kanata_verif)] accessor in /repo, after which "
+                     "harness/src/reload.rs can export the set per step for TLC to compare with P_C11.Intercept",
                      "deterministic stepper; dev-profile build of the working tree"],
         extra_cov={"tables": tables_cov, "exhaustive": True,
                    "intercept_configs": len(lines), "intercept_generator_rejected": len(failed)})
